@@ -279,7 +279,7 @@ const c12FollowKind = "final-state/reconfigured-and-followed"
 
 // DEFECT-PENDING(straggler-direrrors): the directory errors are part of the final-state comparison only when this is on
 // (notes/audit/DEFECT-C20-straggler-direrrors.md; VERIF_PENDING=straggler-direrrors switches it on for one run)
-const c12PendingStraggler = false
+const c12PendingStraggler = true // repaired: D23
 
 func c12Pending() bool {
 	return c12PendingStraggler || strings.Contains(","+os.Getenv("VERIF_PENDING")+",", ",straggler-direrrors,")
